@@ -146,13 +146,25 @@ PROPS = {
     ),
     'C01': dict(
         title='providedBy/implementedBy report exactly the declared and inherited interfaces',
-        contracts=['C02_spec'], falsifier='C01', modes=['py', 'c'], level='other',
+        contracts=['C02_spec', 'C01_decl'], falsifier='C01', modes=['py', 'c'], level='other',
         only={'C02_spec': ['interface.py:Specification.changed', 'interface.py:Specification.__setBases']},
-        level_text='The propagation of a declaration change to every dependent specification (Specification.__setBases keeps the '
-                   'subscription invariant, changed() recomputes and notifies every dependent: C02 contracts) is verified from the real '
-                   'bodies. The declaration functions themselves are bounded only so far: random declaration histories (<=9 steps) over class DAGs with multiple inheritance, against the ghost-history specification with two-sided bounds; the recorded stale-redundancy defect is announced as KNOWN-FINDING.',
-        level_note='bounded; two known findings share one region (redundant instance declaration followed by class narrowing)',
-        explanation='bounded run-time contract checking of the real code against an executable specification written from the statement; no obligation discharged yet for this property',
+        level_text='Verified from the real bodies of declarations.py: _classImplements_ordered keeps everything already declared, adds '
+                   'every new interface the specification does not already imply (only redundant ones may be dropped), invents nothing, '
+                   'lists no duplicate, and assigns bases = declared interfaces followed by implementedBy of each class base unless an '
+                   '*only* form cleared the inheritance; classImplements / classImplementsFirst / classImplementsOnly establish these '
+                   'two-sided bounds for their own arguments (Only: exactly the given interfaces, inheritance stops, other classes '
+                   'untouched); Declaration._add_interfaces_to_cls strips exactly what the class implies now and appends the class '
+                   'specification; ProvidesClass.__init__, the shared-declaration factory Provides (cache keyed by its arguments), '
+                   'directlyProvides, directlyProvidedBy, alsoProvides and noLongerProvides compose to "the object carries a declaration '
+                   'built from its class and the (re-)declared interfaces, no other object is re-declared, class declarations are '
+                   'untouched". The literal clause "only interfaces redundant NOW are dropped" is PROVED for declarations not taken from '
+                   'the shared cache and fails unrestricted (KNOWN-FINDING). The propagation to every dependent specification is the C02 '
+                   'contract of __setBases/changed. implementedBy/providedBy themselves (attribute protocol, builtin and proxy fallbacks), '
+                   'the class-as-object branch (ClassProvides) and the end-to-end statement over histories are checked bounded '
+                   '(random histories <=9 steps, layered class DAGs of 5..9 classes, both implementations).',
+        level_note='implementedBy is an assumed pure lookup in these contracts; object shapes restricted to plain instances of plain '
+                   'classes; _normalizeargs by assumed flattening facts; one known finding (stale shared instance declaration).',
+        explanation='declaration functions proved against two-sided membership bounds; query functions and histories bounded; one recorded defect',
     ),
     'C02': dict(
         title='extends/isOrExtends equal reachability over current bases, after any rebasing',
